@@ -423,7 +423,7 @@ Eval(M, e) ==
                  ty == IF IsP(x) THEN (IF e.args[1].k \in {"ref", "aref"} /\ Known(M, e.args[1].name)
                                        THEN TypeAt(M, DescOf(M, e.args[1].name).base) ELSE "r")
                        ELSE IF IsArr(x) THEN (IF Len(x.d) > 0 THEN x.d[1].t ELSE "r") ELSE x.t
-             IN IF ty = "i" THEN VI(1000000) ELSE VR(1000000, 1)
+             IN IF ty = "i" THEN VI(BigBound) ELSE VR(BigBound, 1)
           ELSE IF e.name = "TRANSPOSE" THEN
              LET x == Eval(M, e.args[1]) IN
              IF IsP(x) \/ ~IsArr(x) THEN POISON ELSE IF Len(x.sh) # 2 THEN POISON
